@@ -77,9 +77,14 @@ def itable(ids, data):
 def run_case(case, work):
     import femio
     out = {'id': case['id']}
-    p = Path(work) / f"c{case['id']}.inp"
-    if p.exists():
-        p.unlink()
+    if case.get('path_key'):
+        # same-process history stream: successive cases write and read the SAME path
+        # (the file of the previous case is still there and is overwritten)
+        p = Path(work) / f"shared_{case['path_key']}.inp"
+    else:
+        p = Path(work) / f"c{case['id']}.inp"
+        if p.exists():
+            p.unlink()
     try:
         fd = build(case)
         out['mesh_elem_ids'] = [int(i) for i in fd.elements.ids]
